@@ -11,15 +11,32 @@ for sid in sorted(d for d in os.listdir(ROOT) if os.path.isdir(os.path.join(ROOT
     diff = open(os.path.join(d, "patch.diff")).read()
     files = sorted(set(re.findall(r"^\+\+\+ b/(\S+)", diff, re.M)))
     demo = [f for f in os.listdir(d) if f.endswith(".rs")]
-    resf = os.path.join(RES, sid + ".txt")
-    caught, detail = [], []
-    if os.path.exists(resf):
+    # three sources, oldest first: the full 17-check matrix of rounds 1+2 (RES/<id>.txt), the first pass of round 3
+    # (own + related checks, RES/../results3_<id>.txt) and the final pass with the final checks (own check and the
+    # checks known to state the broken clause, RES/../final/<id>.txt). For a check that appears in several passes the
+    # latest pass counts.
+    verdict, lines, raw = {}, {}, []
+    for label, resf in (("matrix of all 17 checks (rounds 1 and 2, checks as they were then)", os.path.join(RES, sid + ".txt")),
+                        ("first pass of round 3 (own and related checks, before the extensions it drove)", os.path.join(RES, "..", "results3_" + sid + ".txt")),
+                        ("final pass (final checks)", os.path.join(RES, "..", "final", sid + ".txt"))):
+        if not os.path.exists(resf):
+            continue
         txt = open(resf).read()
-        open(os.path.join(d, "check_results.txt"), "w").write(txt)
-        m = re.search(r"^### \S+:(.*)$", txt, re.M)
-        if m:
-            caught = [t.split("=")[0] for t in m.group(1).split() if t.endswith("=1")]
-        detail = [l.strip() for l in txt.splitlines() if "rule=" in l]
+        raw.append("##### " + label + "\n" + txt)
+        for m in re.finditer(r"^### \S+:(.*)$", txt, re.M):
+            for t in m.group(1).split():
+                k, v = t.split("=")
+                verdict[k] = v
+                lines.pop(k, None)
+        for l in txt.splitlines():
+            m = re.match(r"\s*\[(C\d+)\]\s*(.*rule=.*)", l)
+            if m and m.group(1) not in lines:
+                lines[m.group(1)] = l.strip()
+    if raw:
+        open(os.path.join(d, "check_results.txt"), "w").write("\n".join(raw))
+    caught = sorted(k for k, v in verdict.items() if v == "1")
+    caught.sort(key=lambda k: (k != pid, k))
+    detail = [lines[k] for k in caught if k in lines]
     needs = ""
     for key in ("Needed to manifest", "needs", "Trigger", "What it takes", "manifest"):
         m = re.search(r"(?im)^.*%s.*$" % re.escape(key), readme)
@@ -39,7 +56,8 @@ for sid in sorted(d for d in os.listdir(ROOT) if os.path.isdir(os.path.join(ROOT
             "demo_with_change": "fails (exit 101)",
             "demo_without_change": "passes",
         },
-        "checks_run": "all 17 quick checks against /repo with the patch applied (tools/run_seed.sh equivalent on a separate copy), then reverted",
+        "checks_run": "quick checks against a separate copy of /repo with the patch applied (see check_results.txt for the passes: full 17-check matrix for rounds 1 and 2, own and related checks for round 3, final pass of the own check with the final code), then reverted",
+        "checks_that_ran": sorted(verdict),
         "caught_by": caught,
         "caught_by_own_property_check": pid in caught,
         "first_violation_lines": detail[:4],
